@@ -59,6 +59,15 @@ var origName = map[types.Object]string{}
 // recorded name.
 var origDeclName = map[token.Pos]string{}
 
+// convertedFrom: a current function that the recorded tree had as a method of
+// the named type ("method:T"), or a current method that was a plain function
+// ("func") — same name, the receiver having become the first parameter or the
+// reverse.
+var convertedFrom = map[types.Object]string{}
+
+// convertedDecl: the same, by position of the declaration's name.
+var convertedDecl = map[token.Pos]string{}
+
 var renameNotes []string
 
 // vanished: recorded functions ("Recv.Name" or "Name") that exist no more
@@ -242,6 +251,8 @@ func (w *World) resolveRenames() {
 	origDeclName = map[token.Pos]string{}
 	renameNotes = nil
 	vanished = map[string]bool{}
+	convertedFrom = map[types.Object]string{}
+	convertedDecl = map[token.Pos]string{}
 	data, err := os.ReadFile(filepath.Join(w.VerifD, "checker", "anchors.json"))
 	if err != nil {
 		return
@@ -295,6 +306,43 @@ func (w *World) resolveRenames() {
 				}
 			}
 			if pick == nil {
+				// a method turned into a function of the same name taking the receiver first, or the reverse
+				conv := false
+				for _, c := range cp.Funcs {
+					k := fk{c.Recv, c.Name}
+					if was[k] || taken[k] || c.Name != old.Name {
+						continue
+					}
+					var how string
+					switch {
+					case old.Recv != "" && c.Recv == "" && (c.Sig == withFirstParam(old.Sig, "*"+old.Recv) || c.Sig == withFirstParam(old.Sig, old.Recv) || c.Sig == withFirstParam(old.Sig, key2pkg(key)+"."+old.Recv) || c.Sig == withFirstParam(old.Sig, "*"+key2pkg(key)+"."+old.Recv)):
+						how = "method:" + old.Recv
+					case old.Recv != "" && c.Recv == "" && c.Sig == old.Sig:
+						how = "method-dropped-receiver:" + old.Recv // the receiver was never used
+					case old.Recv == "" && c.Recv != "" && (old.Sig == withFirstParam(c.Sig, "*"+c.Recv) || old.Sig == withFirstParam(c.Sig, c.Recv) || old.Sig == withFirstParam(c.Sig, key2pkg(key)+"."+c.Recv) || old.Sig == withFirstParam(c.Sig, "*"+key2pkg(key)+"."+c.Recv)):
+						how = "func"
+					}
+					if how == "" {
+						continue
+					}
+					obj := w.lookupFuncRaw(p.Types, c.Recv, c.Name)
+					if obj == nil {
+						continue
+					}
+					taken[k] = true
+					convertedFrom[obj] = how
+					for _, fd := range funcDecls(p) {
+						if p.TypesInfo.Defs[fd.Name] == types.Object(obj) {
+							convertedDecl[fd.Name.Pos()] = how
+						}
+					}
+					renameNotes = append(renameNotes, fmt.Sprintf("%s: %s is the recorded %s.%s with the receiver as a parameter (or the reverse)", key, c.Name, old.Recv, old.Name))
+					conv = true
+					break
+				}
+				if conv {
+					continue
+				}
 				if old.Recv != "" {
 					vanished[old.Recv+"."+old.Name] = true
 				} else {
@@ -445,4 +493,23 @@ func ssaMember(sp *ssa.Package, name string) ssa.Member {
 func ssaFuncNamed(sp *ssa.Package, name string) *ssa.Function {
 	f, _ := ssaMember(sp, name).(*ssa.Function)
 	return f
+}
+
+// withFirstParam: signature string sig with one more parameter in front.
+func withFirstParam(sig, typ string) string {
+	if strings.HasPrefix(sig, "()") {
+		return "(" + typ + ")" + sig[2:]
+	}
+	return "(" + typ + "," + sig[1:]
+}
+
+// key2pkg: the package name for a package key ("xpath/grammars/expr" → "expr").
+func key2pkg(key string) string {
+	if i := strings.LastIndex(key, "/"); i >= 0 {
+		return key[i+1:]
+	}
+	if key == "" {
+		return "yang"
+	}
+	return key
 }
